@@ -117,6 +117,11 @@ class AccessMixin:
             if v.t in ('list', 'dict', 'chainmap', 'set', 'iter', 'kwdict'):
                 return [('ok', st, SV('method', (v, attr)))]
             if v.t == 'simple':
+                kt = v.v
+                if z3.is_app(kt) and kt.decl().name() == 'py_klass' and attr not in ('__name__',):
+                    return self.prim(st, 'getattr', [v, sv_str(attr)])       # a class object obtained through type(x): user-level attribute
+                if z3.is_app(kt) and kt.decl().name() == 'py_klass' and attr == '__name__':
+                    return [('ok', st, SV('str', fn('class_name', R, Z.S)(kt)))]
                 return self.raise_builtin(st, 'AttributeError', [sv_str(attr)])
             # opaque object: user-level getattr
             if attr == '__class__':
